@@ -329,4 +329,15 @@ UnionVectorsOK(P, Ps) ==
   /\ Len(P.globE) = SumOver(Ps, LAMBDA p : Len(p.globE))
 UnionOKP(P, Ps) == UnionTypesOK(P, Ps) /\ UnionRestOK(P, Ps) /\ UnionVectorsOK(P, Ps)
 
+---------------------------------------------------------------------------
+(* A database given as JSON (dumps of real databases, files carried by a   *)
+(* trace): {"w":[{"i":index,"r":record},...],...,"allT":[...],...}.        *)
+MapOfJson(q) == [i \in {q[k].i : k \in DOMAIN q} |-> (CHOOSE x \in SeqRange(q) : x.i = i).r]
+FileOfJson(j) == [w |-> MapOfJson(j.w), f |-> MapOfJson(j.f), t |-> MapOfJson(j.t),
+                  m |-> MapOfJson(j.m), e |-> MapOfJson(j.e), s |-> MapOfJson(j.s)]
+DBOfJson(j) == [w |-> MapOfJson(j.w), f |-> MapOfJson(j.f), t |-> MapOfJson(j.t),
+                m |-> MapOfJson(j.m), e |-> MapOfJson(j.e), s |-> MapOfJson(j.s),
+                allT |-> j.allT, globT |-> j.globT, allF |-> j.allF, globF |-> j.globF,
+                globM |-> j.globM, globE |-> j.globE, next |-> j.next]
+
 =============================================================================
